@@ -2,11 +2,13 @@
 import ast
 import datetime as dt
 import itertools
+import random
 import os
 
 from hypothesis import strategies as st
 
 from .. import core, gen
+from .. import grammar as G
 from ..oracle import value
 
 RULE = ("Enumerated: every @rule definition in the syntax tree of ctparse/time/rules.py vs the registry "
@@ -43,6 +45,21 @@ WITNESS = {
     "ruleNamedNumberDuration": ["two days"],
     "ruleDigitDuration": ["2 days"],
 }
+
+
+# rules that fired when this check was written (for these, not firing any more is a violation; for a rule added later
+# an unsuccessful witness search is inconclusive)
+KNOWN_RULES = {
+    'ruleAbsorbFromInterval', 'ruleAbsorbOnTime', 'ruleAfterTime', 'ruleAfterTomorrow', 'ruleAtDOW', 'ruleBeforeTime',
+    'ruleBeforeYesterday', 'ruleDDMM', 'ruleDDMMYYYY', 'ruleDOM1', 'ruleDOM2', 'ruleDOMDate', 'ruleDOMMonth', 'ruleDOMMonth2',
+    'ruleDOWDOM', 'ruleDOWDate', 'ruleDOWNextWeek', 'ruleDOWPOD', 'ruleDOYDate', 'ruleDOYYear', 'ruleDateDOM', 'ruleDateDOW',
+    'ruleDateDate', 'ruleDateInterval', 'ruleDatePOD', 'ruleDateTOD', 'ruleDateTimeDateTime', 'ruleDigitDuration',
+    'ruleDurationHalf', 'ruleDurationInterval', 'ruleEOM', 'ruleEOY', 'ruleEarlyLatePOD', 'ruleHHMM', 'ruleHHMMmilitary',
+    'ruleHHOClock', 'ruleHalfAfterHH', 'ruleHalfBeforeHH', 'ruleIntervalConjDuration', 'ruleIntervalDuration', 'ruleLatentDOM',
+    'ruleLatentDOW', 'ruleLatentDOY', 'ruleLatentPOD', 'ruleMMDD', 'ruleMidnight', 'ruleMonthDOM', 'ruleMonthOrdinal',
+    'ruleNamedDOW', 'ruleNamedHour', 'ruleNamedMonth', 'ruleNamedNumberDuration', 'ruleNextDOW', 'ruleNow', 'rulePOD',
+    'rulePODDate', 'rulePODInterval', 'rulePODPOD', 'rulePODTOD', 'ruleQuarterAfterHH', 'ruleQuarterBeforeHH', 'ruleTODDate',
+    'ruleTODPOD', 'ruleTODTOD', 'ruleTimeDuration', 'ruleToday', 'ruleTomorrow', 'ruleYear', 'ruleYesterday'}
 
 
 def _lib():
@@ -193,7 +210,16 @@ def firing(acc, thorough):
             if gen.seq_stats(t)[1] > 60:
                 continue
             list(m.ctparse_gen(t, ts, timeout=0, max_stack_depth=0, scorer=DummyScorer(), latent_time=False))
+        # rules the sampled part did not reach: the rest of the corpus decides (the verdict must not depend on
+        # which corpus entries the sample happens to hold)
+        for i, (t, ts) in enumerate(texts):
+            if len(fired) == len(orig):
+                break
+            if i % step == 0 or gen.seq_stats(t)[1] > 60:
+                continue
+            list(m.ctparse_gen(t, ts, timeout=0, max_stack_depth=0, scorer=DummyScorer(), latent_time=False))
         wit_used = {}
+        fired_before_search = None
         for n in orig:
             if n in fired:
                 continue
@@ -203,6 +229,31 @@ def firing(acc, thorough):
                 if n in fired:
                     wit_used[n] = t
                     break
+        # last resort for rules neither the corpus nor the witness table reaches (e.g. a rule added after this
+        # check was written): two-token texts over the whole token vocabulary
+        searched = 0
+        fired_before_search = set(fired)
+        if len(fired) < len(orig):
+            toks = sorted({t for p in gen.POOLS for t in p if t.strip()})
+            rnd = random.Random(19)
+            pairs = [(a, b) for a in toks for b in toks]
+            rnd.shuffle(pairs)
+            for a, b in pairs[:60000]:
+                if len(fired) == len(orig):
+                    break
+                searched += 1
+                t = a + " " + b
+                if gen.seq_stats(t)[1] > 60:
+                    continue
+                try:
+                    list(m.ctparse_gen(t, dt.datetime(2020, 11, 3, 12, 0), timeout=0, max_stack_depth=0,
+                                       scorer=DummyScorer(), latent_time=False))
+                except Exception:
+                    pass  # totality is C01's business
+                for n in orig:
+                    if n in fired and n not in wit_used and n not in fired_before_search:
+                        wit_used[n] = t
+            acc.notes["two-token-witness-search-texts"] += searched
     finally:
         for n, v in orig.items():
             R.rules[n] = v
@@ -213,8 +264,13 @@ def firing(acc, thorough):
         acc.case(("fires", n), nontrivial=True, cls="rule-can-fire:" + ("witness-table" if n in wit_used else "corpus"),
                  sample={"check": "rule-can-fire", "rule": n, "witness": wit_used.get(n, "bundled corpus")})
         if n not in fired:
+            if n not in KNOWN_RULES:
+                # a rule this check has never seen fire: the search for a witness is incomplete, no verdict
+                acc.notes["no-witness-found-for-rule-unknown-to-the-check:" + n] += 1
+                acc.inconclusive += 1
+                continue
             acc.fail("rule-never-fires", {"check": "rule-can-fire", "object": n},
-                     "no corpus expression and no witness text makes {} produce a value".format(n))
+                     "no corpus expression, no witness text and no two-token text makes {} produce a value".format(n))
 
 
 MODS_EARLY = ["early", "früh", "früher", "frühen", "frühem"]
@@ -226,7 +282,14 @@ def modifier_chains(acc, thorough):
     R, T = _lib()
     m = core.load_repo()
     pods = T.pod_hours
-    base = [p for p, _ in __import__("ctparse.time.rules", fromlist=["_pods"])._pods]
+    # base parts of day: the frozen grammar's keys, plus the library's own table where it still has that shape
+    base = [b for b in G.POD_FORMS if b in pods]
+    try:
+        for p, _ in __import__("ctparse.time.rules", fromlist=["_pods"])._pods:
+            if p not in base:
+                base.append(p)
+    except Exception:
+        acc.notes["private-table-_pods-not-readable(frozen list used)"] += 1
     # id of the modifier pattern = the pattern predicate of ruleEarlyLatePOD
     w, pats = R.rules["ruleEarlyLatePOD"]
     pid = pred_id(pats[0])
